@@ -161,6 +161,75 @@ func ruleC17(c *Ctx, r *Report) {
 		r.Check(len(bad) == 0, "C17-R1", construct, c.InstrPos(ct),
 			"every error return after a successful CreateTemp passes os.Remove(file.Name()) (direct or deferred)",
 			fmt.Sprintf("temp file survives these exits (partial download left behind): %v", bad))
+		// unwinding: between CreateTemp and the return the body is copied through the HTTP
+		// stack; a panic raised there unwinds through this function, and the file is not yet in
+		// the caller's list - only a deferred call registered after CreateTemp can remove it
+		okUnwind, whyUnwind := false, "no deferred removal of the temp file is registered after CreateTemp"
+		allInstrs(a.perHost, func(i ssa.Instruction) {
+			d, ok := i.(*ssa.Defer)
+			if !ok || okUnwind {
+				return
+			}
+			if !ct.Block().Dominates(d.Block()) {
+				return
+			}
+			if isRemoveOfFile(&d.Call) {
+				okUnwind, whyUnwind = true, "defer os.Remove(file.Name())"
+				return
+			}
+			mc, isMC := d.Call.Value.(*ssa.MakeClosure)
+			if !isMC {
+				return
+			}
+			cl := mc.Fn.(*ssa.Function)
+			for _, blk := range cl.Blocks {
+				for _, ci := range blk.Instrs {
+					dc, isCall := ci.(*ssa.Call)
+					if !isCall || calleeKey(&dc.Call) != "os.Remove" || len(dc.Call.Args) != 1 {
+						continue
+					}
+					// os.Remove(<captured file>.Name())
+					nc, isName := peel(dc.Call.Args[0]).(*ssa.Call)
+					if !isName || calleeKey(&nc.Call) != "(*os.File).Name" {
+						continue
+					}
+					captured := false
+					recv := nc.Call.Args[0]
+					if u, isLoad := recv.(*ssa.UnOp); isLoad {
+						recv = u.X
+					}
+					if fv, isFV := recv.(*ssa.FreeVar); isFV {
+						for bi, x := range cl.FreeVars {
+							if x == fv {
+								b := mc.Bindings[bi]
+								if b == fileVal || derivesFrom(b, fileVal, 0) {
+									captured = true
+								}
+								if al, isAl := b.(*ssa.Alloc); isAl {
+									for _, rr := range referrers(al) {
+										if st, isSt := rr.(*ssa.Store); isSt && st.Addr == ssa.Value(al) && (st.Val == fileVal || derivesFrom(st.Val, fileVal, 0)) {
+											captured = true
+										}
+									}
+								}
+							}
+						}
+					}
+					if !captured {
+						whyUnwind = "the deferred removal does not name the file CreateTemp returned"
+						continue
+					}
+					if g, _, okG := unwindGuardOK(a.perHost, mc, cl, blk); okG {
+						okUnwind, whyUnwind = true, g
+					} else {
+						whyUnwind = g
+					}
+				}
+			}
+		})
+		r.Check(okUnwind, "C17-R1", a.perHost.Name()+":panic-unwind-removes-the-partial-file", c.InstrPos(ct),
+			"a defer registered after CreateTemp removes the file when a panic unwinds ("+whyUnwind+")",
+			"a panic raised while the response body is copied (HTTP stack, decompression in the transport) unwinds through "+a.perHost.Name()+" and leaves the partial download in the temp directory - it is not yet in the caller's list: "+whyUnwind)
 	}
 
 	// ---- R2: error returns inside the host loop are dominated by the delete helper on the accumulator
@@ -422,7 +491,8 @@ func ruleC17(c *Ctx, r *Report) {
 		k := calleeKey(cc)
 		if k == "io.Copy" || k == "io.CopyN" || k == "io.CopyBuffer" {
 			okDst := false
-			if ex, ok := peel(cc.Args[0]).(*ssa.Extract); ok {
+			// (the file may live in a variable that a deferred closure captures)
+			if ex, ok := canon(peel(cc.Args[0])).(*ssa.Extract); ok {
 				if ct, ok := ex.Tuple.(*ssa.Call); ok && calleeKey(&ct.Call) == "os.CreateTemp" {
 					okDst = true
 				}
